@@ -223,8 +223,20 @@ def run_driver(script: str, args: list[str], *, hashseed: int = 0, timeout: int 
                        cwd=VERIF, env=e, input=stdin_text, stdout=subprocess.PIPE,
                        stderr=subprocess.PIPE, text=True, timeout=timeout)
     if p.returncode not in (0,):
+        # an exception that ORIGINATES in the library (innermost frame under <repo>/src/serif) and escapes a call the harness
+        # treats as total is an observation about the library, not a failure of the machinery: on the unchanged tree every
+        # driver runs to completion
+        frames = [ln for ln in p.stderr.splitlines() if ln.lstrip().startswith('File "')]
+        if frames and os.path.join(REPO, "src", "serif") in frames[-1] and "Traceback (most recent call last)" in p.stderr:
+            raise LibraryRaised(script, args, p.stderr[-3000:])
         raise MachineryError(f"driver {script} {args} failed rc={p.returncode}:\n{p.stderr[-4000:]}")
     return p
+
+
+class LibraryRaised(Exception):
+    def __init__(self, script, args, tail):
+        super().__init__(f"library exception escaped {script}")
+        self.script, self.args_, self.tail = script, args, tail
 
 
 # --------------------------------------------------------------------------------------
